@@ -69,9 +69,11 @@ def main():
     r = tlcrun.run_tlc("MCQueue", dict(spec="Spec", consts=dict(Callers="{1, 2}", MutsPer=1, NestCodes="{}", PrepCodes="{}",
                        Recheck=False), invariants=["NoStranding", "NoneLost"]), workers=4, timeout=300)
     expect("Queue Recheck=FALSE (stranded mutation)", sorted(r["violated"]), ["NoStranding", "NoneLost"])
-    for flag, inv in (("ClockAliased", "ClosedIff"), ("QueryFixed", "NeverPanics"), ("DisposeQuery", "ClosedIff")):
+    for flag, inv in (("ClockAliased", "ClosedIff"), ("QueryFixed", "NeverPanics"), ("DisposeQuery", "ClosedIff"),
+                      ("ArgsReuseExact", "ClosedIff")):
         consts = dict(States="<-StatesAB", MultiStates="<-MultiB", ClockAliased=True, QueryFixed=True,
-                      DisposeQuery=True, MaxTx=2, MaxBinds=1, MaxCtx=1)
+                      DisposeQuery=True, ArgsReuseExact=True, UseArgs=(flag == "ArgsReuseExact"), MaxTx=2,
+                      MaxBinds=2 if flag == "ArgsReuseExact" else 1, MaxCtx=1)
         consts[flag] = False
         r = tlcrun.run_tlc("MCSubs", dict(spec="MCSpec", consts=consts,
                            invariants=["ClosedIff", "StateCtxIff", "NeverPanics"]), workers=16, timeout=900)
